@@ -67,8 +67,8 @@ func writeTar(ents []tarEntry) []byte {
 
 // sliceReadSeeker hands out tape-sliced reads.
 type sliceReadSeeker struct {
-	e   *core.Env
-	r   *bytes.Reader
+	e *core.Env
+	r *bytes.Reader
 }
 
 func (s *sliceReadSeeker) Read(p []byte) (int, error) {
